@@ -95,8 +95,13 @@ type plan struct {
 	Order    int        `json:"order"`  // 0: client data first; 1: server speaks first
 	Duplex   bool       `json:"duplex"` // the four application-side activities run concurrently
 	// EOFWithData: ReadFrom sources return their last chunk together with io.EOF
-	EOFWithData bool   `json:"eofWithData"`
-	Seed        uint64 `json:"seed"`
+	EOFWithData bool `json:"eofWithData"`
+	// ZeroEvery > 0: ReadFrom sources interleave (0, nil) reads, starting with the very first Read
+	ZeroEvery int `json:"zeroEvery,omitempty"`
+	// CancelDialCtx: the context passed to DialStream is cancelled right after DialStream returned
+	// (callers routinely do `defer cancel()`); the tunnel must keep working
+	CancelDialCtx bool   `json:"cancelDialCtx,omitempty"`
+	Seed          uint64 `json:"seed"`
 }
 
 const maxChunk = 0xFFFF
@@ -240,6 +245,10 @@ func drawPlan(rt *rapid.T) (p plan, nearConst bool) {
 	p.Order = rapid.IntRange(0, 1).Draw(rt, "order")
 	p.Duplex = rapid.IntRange(0, 3).Draw(rt, "duplex") == 0
 	p.EOFWithData = rapid.Bool().Draw(rt, "eofWithData")
+	if rapid.IntRange(0, 3).Draw(rt, "zeroReads") == 0 {
+		p.ZeroEvery = rapid.IntRange(1, 3).Draw(rt, "zeroEvery")
+	}
+	p.CancelDialCtx = rapid.Bool().Draw(rt, "cancelDialCtx")
 	p.Seed = rapid.Uint64().Draw(rt, "seed")
 	return p, nearConst
 }
@@ -351,7 +360,12 @@ func runPlan(p plan) (res *outcome, labels []string) {
 	}
 
 	// ---- hop A handshake
-	connA, err := eps[0].client.DialStream(ctx, target, P)
+	dialCtx, cancelDial := context.WithCancel(ctx)
+	defer cancelDial()
+	connA, err := eps[0].client.DialStream(dialCtx, target, P)
+	if p.CancelDialCtx {
+		cancelDial()
+	}
 	if err != nil {
 		return fail("C01/dial-error", "DialStream A: %v", err), nil
 	}
@@ -400,7 +414,12 @@ func runPlan(p plan) (res *outcome, labels []string) {
 		appServer, _ = reqA.Proceed()
 	} else {
 		scA, _ := reqA.Proceed()
-		connB, err := eps[1].client.DialStream(ctx, reqA.Addr, reqA.Payload)
+		dialCtxB, cancelDialB := context.WithCancel(ctx)
+		defer cancelDialB()
+		connB, err := eps[1].client.DialStream(dialCtxB, reqA.Addr, reqA.Payload)
+		if p.CancelDialCtx {
+			cancelDialB()
+		}
 		if err != nil {
 			return fail("C01/dial-error", "DialStream B: %v", err), nil
 		}
@@ -454,7 +473,7 @@ func runPlan(p plan) (res *outcome, labels []string) {
 
 	// ---- data phases (sequential on the application side; the transport never blocks writers)
 	upW := func() *outcome {
-		if err := writeAll(appClient, c2s, p.C2S, p.WPathC, p.EOFWithData); err != nil {
+		if err := writeAll(appClient, c2s, p.C2S, p.WPathC, p.EOFWithData, p.ZeroEvery); err != nil {
 			return fail("C01/client-write-error", "%v", err)
 		}
 		return nil
@@ -471,7 +490,7 @@ func runPlan(p plan) (res *outcome, labels []string) {
 		return nil
 	}
 	downW := func() *outcome {
-		if err := writeAll(appServer, s2c, p.S2C, p.WPathS, p.EOFWithData); err != nil {
+		if err := writeAll(appServer, s2c, p.S2C, p.WPathS, p.EOFWithData, p.ZeroEvery); err != nil {
 			return fail("C01/server-write-error", "%v", err)
 		}
 		return nil
@@ -628,7 +647,7 @@ var rec = ev.New("C01", "tunnel-ledger",
 		"checking address bytes, initial-payload split, padding bound, chunk sizes 1..65535 and plaintext equality. "+
 		"Non-trivial: bytes>0 both ways AND (a length within +-3 of a structural constant, or a read buffer smaller than a chunk, or a fragment boundary inside a length chunk, or relay topology). "+
 		"Distinct key: config class + topology + paths + order + boundary classes of payload/write lengths").
-	Require("relay", "eih>=2", "prefix>64KiB", "payload-over-room", "leftover-read", "frag-inside-length-chunk", "path-readfrom", "path-writeto", "server-first", "duplex", "nonce-first-carry(>255 seals)", "nonce-second-carry(>65535 seals)", "readfrom-source-eof-with-data", "addr-rechecked-after-server-write", "multi-chunk", "not-segmented", "domain>=254")
+	Require("relay", "eih>=2", "prefix>64KiB", "payload-over-room", "leftover-read", "frag-inside-length-chunk", "path-readfrom", "path-writeto", "server-first", "duplex", "readfrom-source-zero-length-reads", "dial-context-cancelled-after-dial", "dial-context-cancelled-after-excess-payload-write", "nonce-first-carry(>255 seals)", "nonce-second-carry(>65535 seals)", "readfrom-source-eof-with-data", "addr-rechecked-after-server-write", "multi-chunk", "not-segmented", "domain>=254")
 
 // compactPlan shortens very long write lists for the evidence samples.
 func compactPlan(p plan) map[string]any {
@@ -708,6 +727,9 @@ func classify(p plan, near bool, extra []string) (labels []string, nt bool) {
 	add(p.RPathC == pathRF || p.RPathS == pathRF, "path-writeto")
 	add(p.Order == 1, "server-first")
 	add(p.Duplex, "duplex")
+	add(p.ZeroEvery > 0 && (p.WPathC == pathRF || p.WPathS == pathRF), "readfrom-source-zero-length-reads")
+	add(p.CancelDialCtx, "dial-context-cancelled-after-dial")
+	add(p.CancelDialCtx && p.Payload > maxChunk-len(p.Target.wireAddr())-2, "dial-context-cancelled-after-excess-payload-write")
 	add(len(p.C2S) >= 130 || len(p.S2C) >= 130, "nonce-first-carry(>255 seals)")
 	add(len(p.C2S) >= 33000 || len(p.S2C) >= 33000, "nonce-second-carry(>65535 seals)")
 	add(p.EOFWithData && (p.WPathC == pathRF && sum(p.C2S) > 0 || p.WPathS == pathRF && sum(p.S2C) > 0), "readfrom-source-eof-with-data")
